@@ -6,7 +6,7 @@ resolver sees identifies the parent it came from (unambiguous histories).
 """
 import random
 
-from vt import values
+from vt import inputs_common, values
 from vt.smodel import BUILTIN_SCALARS, named_of
 from vt.values import canon
 
@@ -318,6 +318,9 @@ class World:
             self.anomalies.append(("parent-type", T, fname, m.t, pid))
         if info.field_name != fname or info.parent_type.name != T:
             self.anomalies.append(("info", T, fname, info.field_name, info.parent_type.name))
+        bad = inputs_common.args_conform(self.s, self.s.types[T].fields[fname].args, args)
+        if bad:
+            self.anomalies.append(("delivered-argument-type", "%s.%s" % (T, fname), bad))
         out = self.field_outcome(T, fname, pid, args if args else None)
         if self.sched is not None:
             await self.sched.gate("r:" + "/".join(map(str, info.path.as_list())))
